@@ -141,6 +141,14 @@ CLAIMS["C06"] = {
     "design_ref": "DESIGN.md §5 C06",
 }
 
+CLAIMS["C02"] = {
+    "technique": "static analysis: growth-site rule over every realloc in the compiler units, per-iteration weighted longest-path in budgeted lexer copy loops, must-pass-through of state release in epilog, call-graph reachability of fatal() from compile_file (context-sensitive for comparator arguments), representation-invariant rule on the locals table",
+    "text": "Decides structural necessary conditions of compiler safety and reusability for all source texts: every table reallocation really grows (or is an exact fit); lexer copy loops that spend a space budget never store more bytes than they charge and SAVEC stores are bounded; "
+            "epilog releases lexer, scratchpad and locals on every return; errors are counted and block object creation; fatal() is reachable from compilation only via reviewed internal-inconsistency sites; "
+            "whoever drops a local's sem_value removes it from the live range. The stuck re-entrancy flag after an escaping error is a recorded finding. Termination and equality of the produced program with a fresh driver's are not decided.",
+    "design_ref": "DESIGN.md §5 C02",
+}
+
 NOT_APPLICABLE = {
     "C18": "Line/trace correctness is a value-level question about run-length tables (encode in the code generator, decode in find_line); no clause of it is visible in the shape of the code, so static analysis gives no verdict (DESIGN.md §6).",
 }
